@@ -4,9 +4,14 @@
 package conf
 
 // Map iterations in the compile path and why their order cannot influence the compiled program.
+//@ func conf.dereference
+//@   pure
 //@ func conf.FieldsFromStruct
 //@   property C09 C16
 //@   case map-range: the body only inserts into (or marks ambiguous in) the result map, keyed by the iterated name
+// a name promoted from an embedded struct that collides with a name already in the table is ambiguous, whatever
+// the two types are (reflect's FieldByName does not resolve it either) (C03, C16)
+//@   loop 1 body-ensures[collision-ambiguous] head(has(types, name)) ==> types[name].Ambiguous
 //@ func conf.CreateTypesTable
 //@   property C09 C16
 //@   case map-range: v.MapKeys() is iterated only to insert key -> type into the result map
